@@ -19,6 +19,12 @@ def gen_case(rng, fs=None, how=None, nmax=4):
     m = eamlib.gen_model(rng, fs=fs, potable=potable, nmax=nmax, kmax=4, nr_max=14, nrho_max=11)
     if potable:
         eamlib.make_potable_variants(rng, m)
+    if rng.random() < 0.25:
+        # a pair potential that names a species WITHOUT embedding / density functions (an oxide model's O-O next to the metal's EAM functions): the file lists the
+        # functions of the EAM species only - the declared count and the blocks that follow still agree (round-8 seed C05_13)
+        extra = rng.choice(["Ox", "Qz"])
+        for (a, b) in rng.sample([(extra, extra), rng.choice([(m["els"][0], extra), (extra, m["els"][-1])])], rng.randint(1, 2)):
+            m["pairs"].append((a, b, 70 + len(m["pairs"])))
     target = "DL_POLY_EAM_fs" if fs else "DL_POLY_EAM"
     return dict(route="%s/%s" % (target, how), how=how, model=m, target=target, api_variant=None if potable else eamlib.api_variant(rng, m))
 
